@@ -15,6 +15,7 @@ import (
 	"go/ast"
 	"go/token"
 	"go/types"
+	"sort"
 )
 
 func privateSlices(info *types.Info, body *ast.BlockStmt) map[types.Object]bool {
@@ -289,4 +290,318 @@ func useOK(info *types.Info, o types.Object, id *ast.Ident, stack []ast.Node, rh
 		return true
 	}
 	return false
+}
+
+// Private struct locals.
+//
+// A parameter or local of struct VALUE type lives in the activation record: callees can reach it
+// only through a pointer the activation hands out. If the variable is never explicitly
+// address-taken (&x) and is not mentioned inside a closure that escapes, the only pointers to it
+// are the implicit receivers of method calls made on it, whose effect is accounted for at that
+// call (by the callee's contract or the opaque-call rule); no later call can write to it. An
+// opaque call therefore keeps its top-level fields (vc.havocHeap).
+func privateStructs(info *types.Info, ftype *ast.FuncType, body *ast.BlockStmt) map[types.Object]bool {
+	cand := map[types.Object]bool{}
+	bad := map[types.Object]bool{}
+	if body == nil {
+		return cand
+	}
+	add := func(id *ast.Ident) {
+		if o, ok := info.Defs[id].(*types.Var); ok && o != nil && !o.IsField() && isStructVal(o.Type()) {
+			cand[o] = true
+		}
+	}
+	if ftype != nil && ftype.Params != nil {
+		for _, f := range ftype.Params.List {
+			for _, nm := range f.Names {
+				add(nm)
+			}
+		}
+	}
+	ast.Inspect(body, func(n ast.Node) bool {
+		if id, ok := n.(*ast.Ident); ok {
+			add(id)
+		}
+		return true
+	})
+	if len(cand) == 0 {
+		return cand
+	}
+	var stack []ast.Node
+	ast.Inspect(body, func(n ast.Node) bool {
+		if n == nil {
+			stack = stack[:len(stack)-1]
+			return true
+		}
+		switch x := n.(type) {
+		case *ast.UnaryExpr:
+			if x.Op == token.AND {
+				if id, ok := ast.Unparen(x.X).(*ast.Ident); ok {
+					if o := info.ObjectOf(id); o != nil && cand[o] {
+						bad[o] = true
+					}
+				}
+			}
+		case *ast.FuncLit:
+			// conservative: any mention inside a literal that is not invoked on the spot
+			invoked := false
+			if len(stack) > 0 {
+				if c, ok := stack[len(stack)-1].(*ast.CallExpr); ok && ast.Unparen(c.Fun) == ast.Expr(x) {
+					invoked = true
+					if len(stack) > 1 {
+						if _, isGo := stack[len(stack)-2].(*ast.GoStmt); isGo {
+							invoked = false
+						}
+					}
+				}
+			}
+			if !invoked {
+				ast.Inspect(x, func(m ast.Node) bool {
+					if id, ok := m.(*ast.Ident); ok {
+						if o := info.ObjectOf(id); o != nil && cand[o] {
+							bad[o] = true
+						}
+					}
+					return true
+				})
+			}
+		}
+		stack = append(stack, n)
+		return true
+	})
+	out := map[types.Object]bool{}
+	for o := range cand {
+		if !bad[o] {
+			out[o] = true
+		}
+	}
+	return out
+}
+
+// snapshotFields records the current terms of the field arrays (before a havoc).
+func (vc *VC) snapshotFields(st *State) map[string]Term {
+	if len(vc.privStructs) == 0 && len(vc.privPtrs) == 0 {
+		return nil
+	}
+	old := map[string]Term{}
+	for n, t := range st.heap {
+		if len(n) > 2 && n[:2] == "F$" {
+			old[n] = t
+		}
+	}
+	return old
+}
+
+// keepPrivateStructs: after a havoc caused by a call, the top-level fields of the private struct
+// locals keep their values — except for a struct that the call itself was made on (receiver) or was
+// given (argument): that call's own effect on it is whatever its contract / the opaque rule says.
+func (vc *VC) keepPrivateStructs(st *State, old map[string]Term) {
+	if (len(vc.privStructs) == 0 && len(vc.privPtrs) == 0) || old == nil {
+		return
+	}
+	involved := map[types.Object]bool{}
+	if c := vc.curCall; c != nil {
+		mark := func(e ast.Expr) {
+			for {
+				e = ast.Unparen(e)
+				switch x := e.(type) {
+				case *ast.SelectorExpr:
+					e = x.X
+					continue
+				case *ast.UnaryExpr:
+					e = x.X
+					continue
+				case *ast.Ident:
+					if o := vc.frames[0].info.ObjectOf(x); o != nil {
+						involved[o] = true
+					}
+				}
+				return
+			}
+		}
+		if sel, ok := ast.Unparen(c.Fun).(*ast.SelectorExpr); ok {
+			mark(sel.X)
+		}
+		for _, a := range c.Args {
+			mark(a)
+		}
+	}
+	var objs []types.Object
+	for o := range st.vars {
+		if (vc.privStructs[o] || vc.privPtrs[o]) && !involved[o] && st.vars[o].Sort == SInt {
+			objs = append(objs, o)
+		}
+	}
+	sort.Slice(objs, func(i, j int) bool { return objs[i].Pos() < objs[j].Pos() })
+	for _, o := range objs {
+		s := structOf(o.Type())
+		if s == nil {
+			continue
+		}
+		id := st.vars[o]
+		kept := false
+		for i := 0; i < s.NumFields(); i++ {
+			f := s.Field(i)
+			if isStructVal(f.Type()) {
+				continue
+			}
+			n := vc.fieldName(o.Type(), f)
+			was, ok := old[n]
+			if !ok {
+				continue
+			}
+			if cur, ok := st.heap[n]; ok && cur.S != was.S {
+				if vc.privPtrs[o] {
+					// the object under construction was allocated by this activation
+					st.assume(Implies(app(SBool, ">", id, Term{"alloc$base", SInt}), Eq(Select(cur, id), Select(was, id))))
+				} else {
+					st.assume(Eq(Select(cur, id), Select(was, id)))
+				}
+				kept = true
+			}
+		}
+		if kept {
+			vc.notes["private struct local / object under construction "+o.Name()+": fields kept across calls not made on it"]++
+		}
+	}
+}
+
+// Private fresh pointers.
+//
+// A local pointer variable that is only ever assigned the address of a composite literal or
+// new(T), and is otherwise used only to select fields (p.f, read or written), in comparisons with
+// nil and in return statements — never passed to a call, used as a method receiver, stored,
+// copied, or mentioned in an escaping closure — points to an object under construction that
+// nothing else can reach: opaque calls keep its top-level fields.
+func privatePointers(info *types.Info, body *ast.BlockStmt) map[types.Object]bool {
+	cand := map[types.Object]bool{}
+	bad := map[types.Object]bool{}
+	if body == nil {
+		return cand
+	}
+	ast.Inspect(body, func(n ast.Node) bool {
+		if id, ok := n.(*ast.Ident); ok {
+			if o, ok := info.Defs[id].(*types.Var); ok && o != nil && !o.IsField() {
+				if p, ok := types.Unalias(o.Type()).Underlying().(*types.Pointer); ok && structOf(p.Elem()) != nil {
+					cand[o] = true
+				}
+			}
+		}
+		return true
+	})
+	if len(cand) == 0 {
+		return cand
+	}
+	freshRHS := func(e ast.Expr) bool {
+		e = ast.Unparen(e)
+		switch x := e.(type) {
+		case *ast.UnaryExpr:
+			if x.Op == token.AND {
+				_, ok := ast.Unparen(x.X).(*ast.CompositeLit)
+				return ok
+			}
+		case *ast.CallExpr:
+			if id, ok := ast.Unparen(x.Fun).(*ast.Ident); ok {
+				if b, ok := info.Uses[id].(*types.Builtin); ok && b.Name() == "new" {
+					return true
+				}
+			}
+		}
+		return false
+	}
+	var stack []ast.Node
+	ast.Inspect(body, func(n ast.Node) bool {
+		if n == nil {
+			stack = stack[:len(stack)-1]
+			return true
+		}
+		defer func() { stack = append(stack, n) }()
+		if fl, ok := n.(*ast.FuncLit); ok {
+			invoked := false
+			if len(stack) > 0 {
+				if c, ok := stack[len(stack)-1].(*ast.CallExpr); ok && ast.Unparen(c.Fun) == ast.Expr(fl) {
+					invoked = true
+					if len(stack) > 1 {
+						if _, isGo := stack[len(stack)-2].(*ast.GoStmt); isGo {
+							invoked = false
+						}
+					}
+				}
+			}
+			if !invoked {
+				ast.Inspect(fl, func(m ast.Node) bool {
+					if id, ok := m.(*ast.Ident); ok {
+						if o := info.ObjectOf(id); o != nil && cand[o] {
+							bad[o] = true
+						}
+					}
+					return true
+				})
+			}
+			return true
+		}
+		id, ok := n.(*ast.Ident)
+		if !ok {
+			return true
+		}
+		var o types.Object
+		isDef := false
+		if d := info.Defs[id]; d != nil && cand[d] {
+			o, isDef = d, true
+		} else if u := info.Uses[id]; u != nil && cand[u] {
+			o = u
+		}
+		if o == nil || len(stack) == 0 {
+			return true
+		}
+		switch p := stack[len(stack)-1].(type) {
+		case *ast.AssignStmt:
+			okUse := false
+			if len(p.Lhs) == len(p.Rhs) {
+				for i, l := range p.Lhs {
+					if l == ast.Expr(id) && freshRHS(p.Rhs[i]) {
+						okUse = true
+					}
+				}
+			}
+			if !okUse {
+				bad[o] = true
+			}
+		case *ast.ValueSpec:
+			okUse := len(p.Values) == 0
+			for i, nm := range p.Names {
+				if nm == id && i < len(p.Values) && freshRHS(p.Values[i]) {
+					okUse = true
+				}
+			}
+			if !okUse {
+				bad[o] = true
+			}
+		case *ast.SelectorExpr:
+			if p.X != ast.Expr(id) {
+				bad[o] = true
+				break
+			}
+			// a method call p.M() hands p out
+			if sel, ok := info.Selections[p]; ok && sel.Kind() != types.FieldVal {
+				bad[o] = true
+			}
+		case *ast.ReturnStmt:
+		case *ast.BinaryExpr:
+			if p.Op != token.EQL && p.Op != token.NEQ {
+				bad[o] = true
+			}
+		default:
+			_ = isDef
+			bad[o] = true
+		}
+		return true
+	})
+	out := map[types.Object]bool{}
+	for o := range cand {
+		if !bad[o] {
+			out[o] = true
+		}
+	}
+	return out
 }
